@@ -333,6 +333,14 @@ def splice(prelude_src, master_src, ext_src, deferred, quarantined=()):
         if _norm(txt) in have:
             continue
         report.setdefault("new_constants", []).append(re.sub(r"\s+", " ", txt)[:120])
+        mname = re.search(r"\b(?:const|static|type)\s+([A-Za-z_][A-Za-z_0-9]*)", txt)
+        cname = mname.group(1) if mname else "?"
+        report.setdefault("new_constant_names", []).append(cname)
+        if isinstance(quarantined, dict) and quarantined.get("const:" + cname, 0) >= 1:
+            # its initialiser is beyond the verifier (e.g. it calls an exec function): the value is then unknown to it
+            txt = "#[verifier::external_body] // @opaque-const: initialiser not read by the verifier\n" + txt
+            report.setdefault("opaque_constants", []).append(cname)
+        txt = "// @newconst %s\n" % cname + txt
         if parent == "":
             tail.append(txt)
         else:
